@@ -294,6 +294,28 @@ impl Scenario for Gossip {
     fn generate(&self, rng: &mut Rng, tier: Tier, _target: &str) -> GossipPlan {
         let u16reg = rng.chance(0.5);
         let hash = *rng.pick(&[HashT::Fnv, HashT::Fnv, HashT::SimA, HashT::Xx64]);
+        if tier == Tier::Thorough && rng.chance(0.003) {
+            // cardinalities up to a million on small sketches: two shards, merge, streaming after the merge
+            let m = rng.log_range(1, 64) as usize;
+            let setp = gen_setp(rng, u16reg);
+            let n = rng.log_range(100_000, 1_000_000);
+            let base = rng.u64() >> 3;
+            let cut = rng.range(1, n - 1);
+            let overlap = rng.range(0, (n - cut).min(50_000));
+            let a: Vec<u64> = (0..cut).map(|k| base + k).collect();
+            let b: Vec<u64> = (cut - overlap.min(cut)..n).map(|k| base + k).collect();
+            let tail: Vec<u64> = (0..rng.range(1, 50_000)).map(|k| base + n + k).collect();
+            let events = vec![
+                GEv::Chunk { node: 0, items: a },
+                GEv::Chunk { node: 1, items: b },
+                GEv::Snapshot { node: 1, slot: 0 },
+                GEv::Merge { src: 1, dst: 0 },
+                GEv::Chunk { node: 0, items: tail },
+                GEv::MergeSnap { slot: 0, dst: 0 },
+                GEv::Checkpoint,
+            ];
+            return GossipPlan { u16reg, hash, m, setp, nodes: 2, slots: 1, events };
+        }
         let big = tier == Tier::Thorough && rng.chance(0.02);
         let m = if big {
             rng.log_range(256, 8192) as usize
